@@ -111,6 +111,10 @@ def run_shard(sh, ctx):
 		idx = list(range(n))
 		if style == 'identical-heavy':
 			idx = idx + [rng.randrange(n) for _ in range(3)]      # the same genome file passed several times (duplicate labels, zero distances)
+		if style in ('mixed', 'many') and rng.random() < 0.5:
+			for _ in range(rng.randint(1, 2)):
+				idx.append(G.add_symlink(rng.choice(idx[:n])))       # a symbolic link named differently from its target: one more leaf, labelled by the link's name
+			ctx.count('trees_with_symlinked_inputs')
 		if style == 'same-label':
 			# different genomes whose files yield the same label (same name in another directory / other extension): every leaf still
 			# stands for its own genome
